@@ -265,6 +265,9 @@ def run(ctx):
         if rq["po"] in ("det", "both"):
             dm["illum_polarization"] = DET_PO if rq["scat"] not in ("spheroid", "cylinder") else (1, 0)
         det = update_metadata(det, **dm) if dm else det
+        # the detector's own annotations (anything besides the four optics fields) are metadata too
+        det.attrs["experiment"] = "run 7, chamber B"
+        det.attrs["exposure_ms"] = 12.5
         kw = {}
         if rq["wl"] in ("kw", "both"):
             kw["illum_wavelen"] = kw_wl
@@ -339,6 +342,8 @@ def run(ctx):
             pi = np.asarray(h.illum_polarization.values, dtype=float)
             if pi.shape[-1] != 3 or np.max(np.abs(pi.reshape(-1, 3) - pe)) > 1e-15:
                 bad = ("attrs/illum_polarization", {"impl": pi.tolist(), "spec": pe.tolist()})
+            elif h.attrs.get("experiment") != "run 7, chamber B" or h.attrs.get("exposure_ms") != 12.5:
+                bad = ("attrs/detector_annotations_lost", {"impl": sorted(h.attrs)})
         # value
         if bad is None:
             if want[1] == "exactly_one":
@@ -371,6 +376,13 @@ def run(ctx):
                     continue
                 if d1 > 1e-12 or d2 > 1e-12:
                     bad = ("value", {"holo_defect": d1, "intensity_defect": d2})
+                elif any(not fp.same(r_.attrs.get(k_), h.attrs.get(k_)) for r_ in (E, inten)
+                         for k_ in ("medium_index", "illum_wavelen", "illum_polarization", "experiment", "exposure_ms")) \
+                        or inten.name != h.name or E.name != h.name:
+                    # the field and the intensity carry the same merged metadata as the hologram
+                    bad = ("attrs/field_or_intensity_metadata", {
+                        "intensity": {k_: repr(inten.attrs.get(k_))[:60] for k_ in ("medium_index", "illum_wavelen", "experiment")},
+                        "field": {k_: repr(E.attrs.get(k_))[:60] for k_ in ("medium_index", "illum_wavelen", "experiment")}})
                 elif "illum_polarization" in kw and not multi and rq["scat"] in ("sphere_lens", "sphere_mielens", "sphere", "layered"):
                     # the field is odd in the polarisation vector, the hologram even: p and -p give one picture
                     kwm = dict(kw, illum_polarization=tuple(-float(v) for v in kw["illum_polarization"]))
